@@ -448,6 +448,18 @@ def rule_ops(ctx, R):
                     b_end = roles.of_origin(org.of_local(bvar, last, "t"))
                     body_paths.append((a_end, b_end))
                 ok = bool(body_paths) and all(x == ("B", "Rem::rem(A,B)") for x in body_paths)
+                # polarity of the loop test: the body is entered exactly when b is not zero
+                from .interp import Events as _Ev
+                ev_ = _Ev(b, fb, roles=Roles(b, fb, org=Origins(b, fb, overrides=ov)))
+                ent, ext = [], []
+                for gb in loop:
+                    tt = b.blocks[gb]["term"]
+                    if tt["k"] == "switch":
+                        for sx in cfg.succ[gb]:
+                            lab = ev_.generic_edge(gb, tt, sx)
+                            if lab and "BigNum::is_zero(" in lab:
+                                (ent if sx in loop else ext).append(lab)
+                R.check(ent == ["BR[BigNum::is_zero(B)]=0"] and ext == ["BR[BigNum::is_zero(B)]=1"], "gcd:loop_condition", "the loop of gcd continues while b is not zero and stops when it is: stays on %s, leaves on %s" % (ent, ext), b.blocks[head]["term"]["span"]["at"])
                 R.check(ok, "gcd:euclid_step", "each iteration replaces (a, b) by (b, a % b); the loop runs while b is not zero", b.blocks[head]["term"]["span"]["at"], body_paths)
                 # returns a, starts from clones of the arguments
                 rets = []
@@ -677,8 +689,40 @@ def _mult_structure(L, R):
     R.check(ok, "mult_core:ranges", "mult_core: every pair (i, j) of digits is visited: %s" % [x[1][:60] for x in iters], b.span)
     vlen = roles.of_origin(L.Vinit[1])
     R.check(vlen in ("(([T]::len(LHS) Add [T]::len(RHS)) Add K1)", "([T]::len(LHS) Add [T]::len(RHS))"), "mult_core:length", "mult_core: the accumulator has at least len(lhs)+len(rhs) cells: %s" % vlen, b.span)
-    # skipping a whole row is allowed only when the row's digit is zero
-    ev = Events(b, fb, roles=roles)
+    # skipping a whole row is allowed only when the row's digit (the lhs factor of the products of that row) is zero
+    cfg = L.cfg
+    LB = {h: d["blocks"] for h, d in L.heads.items()}
+    heads = sorted(LB, key=lambda h: len(LB[h]))
+    if R.anchor(len(heads) == 2 and LB[heads[0]] < LB[heads[1]], "mult_core:nest", "the row loop of mult_core and the column loop inside it"):
+        inner, outer = heads
+        uncast = lambda o: uncast(o[3]) if o[0] == "cast" else o
+        mentions = lambda o, k: any(x == ("arg", k) for x in walk(o))
+        facs = set()
+        for bi in LB[inner]:
+            for si, st in enumerate(b.blocks[bi]["stmts"]):
+                if st["k"] == "assign" and st["r"]["k"] == "bin" and st["r"]["op"] in ("Mul", "MulWithOverflow"):
+                    for side in ("l", "r"):
+                        o_ = uncast(L.org0.of_operand(st["r"][side], bi, si))
+                        if mentions(o_, 1) and not mentions(o_, 2):
+                            facs.add(o_)
+        skips, odd = [], []
+        for gb in LB[outer] - LB[inner]:
+            tt = b.blocks[gb]["term"]
+            if tt["k"] != "switch" or tt["xty"] != "bool":
+                continue
+            o_ = L.org0.of_operand(tt["x"], gb, "t")
+            if o_[0] == "bin" and o_[1] in ("Eq", "Ne") and ((uncast(o_[2]) in facs and o_[3][0] == "const" and o_[3][2] == 0) or (uncast(o_[3]) in facs and o_[2][0] == "const" and o_[2][2] == 0)):
+                truth = 1 if o_[1] == "Eq" else 0
+                for v_, bb in tt["arms"]:
+                    pass
+                zero_t = [bb for v_, bb in tt["arms"] if int(v_) == 0]
+                tgt = (tt["otherwise"] if truth == 1 else zero_t[0]) if zero_t else None
+                if tgt is not None:
+                    skips.append((gb, tgt))
+        tails = L.heads[outer]["tails"]
+        body_entries = [sx for sx in cfg.succ[outer] if sx in LB[outer]]
+        bypass = reaches_without(cfg, body_entries, tails, cut_blocks=[inner, outer] + [x for x in range(len(b.blocks)) if x not in LB[outer]], cut_edges=skips)
+        R.check(len(facs) == 1 and not bypass, "mult_core:skip", "a row is skipped only when its own digit (the lhs factor of its products) is zero (row factor %s, skip edges %d)" % ([show(f, b)[:50] for f in facs], len(skips)), b.blocks[outer]["term"]["span"]["at"])
 
 
 def rule_divless(ctx, R):
